@@ -2,6 +2,8 @@ import NeumannModel.Graph.Model
 /-
   C05 — definitions of the property (WF, QuiescentWF) and helper lemmas.
 -/
+set_option linter.unusedSimpArgs false
+set_option linter.unusedVariables false
 namespace Neumann.Graph
 
 /-- Structural consistency of a quiescent store image:
@@ -25,5 +27,533 @@ structure WF (m : KV) : Prop where
 def QuiescentWF (s0 : St) (programs : List (List Op)) : Prop :=
   ∀ sched, allFinished (runSched programs sched s0).1 = true →
     WF (runSched programs sched s0).2.kv
+
+/-! ### generic graph-level lemmas (in terms of the four views of a store) -/
+
+theorem wf_add_edge {m m' : KV} {eid a b : Nat} {d : Bool} {ty v : Nat}
+    (h : WF m) (hfresh : edgeAt m eid = none) (ha : nodeEx m a = true) (hb : nodeEx m b = true)
+    (hE : ∀ x, edgeAt m' x = if x = eid then some ⟨a, b, d, ty, v⟩ else edgeAt m x)
+    (hN : ∀ n, nodeEx m' n = nodeEx m n)
+    (hO : ∀ n x, x ∈ outL m' n ↔ x ∈ outL m n ∨ (x = eid ∧ (n = a ∨ (d = false ∧ n = b))))
+    (hI : ∀ n x, x ∈ inL m' n ↔ x ∈ inL m n ∨ (x = eid ∧ (n = b ∨ (d = false ∧ n = a))))
+    (hOd : ∀ n, (outL m' n).Nodup) (hId : ∀ n, (inL m' n).Nodup) : WF m' := by
+  refine ⟨?_, ?_, ?_, hOd, hId⟩
+  · intro e r he
+    rw [hE] at he
+    by_cases hx : e = eid
+    · subst hx; simp at he; subst he
+      simp [hN, ha, hb, hO, hI]
+      intro hd; simp [hd]
+    · simp [hx] at he
+      obtain ⟨h1, h2, h3, h4, h5⟩ := h.edge_listed e r he
+      simp only [hN, hO, hI]
+      exact ⟨h1, h2, Or.inl h3, Or.inl h4, fun hd => ⟨Or.inl (h5 hd).1, Or.inl (h5 hd).2⟩⟩
+  · intro n e he
+    rw [hO] at he
+    rw [hE]
+    rcases he with he | ⟨rfl, hn⟩
+    · obtain ⟨r, hr, ht⟩ := h.out_sound n e he
+      have : e ≠ eid := by intro hx; subst hx; rw [hfresh] at hr; cases hr
+      exact ⟨r, by simp [this, hr], ht⟩
+    · refine ⟨⟨a, b, d, ty, v⟩, by simp, ?_⟩
+      rcases hn with rfl | ⟨hd, rfl⟩
+      · exact Or.inl rfl
+      · exact Or.inr ⟨hd, rfl⟩
+  · intro n e he
+    rw [hI] at he
+    rw [hE]
+    rcases he with he | ⟨rfl, hn⟩
+    · obtain ⟨r, hr, ht⟩ := h.in_sound n e he
+      have : e ≠ eid := by intro hx; subst hx; rw [hfresh] at hr; cases hr
+      exact ⟨r, by simp [this, hr], ht⟩
+    · refine ⟨⟨a, b, d, ty, v⟩, by simp, ?_⟩
+      rcases hn with rfl | ⟨hd, rfl⟩
+      · exact Or.inl rfl
+      · exact Or.inr ⟨hd, rfl⟩
+
+/-- removing edge `e` (record `r`) and its entries -/
+theorem wf_remove_edge {m m' : KV} {e : Nat}
+    (h : WF m)
+    (hE : ∀ x, edgeAt m' x = if x = e then none else edgeAt m x)
+    (hN : ∀ n, nodeEx m' n = nodeEx m n)
+    (hO : ∀ n x, x ∈ outL m' n ↔ x ∈ outL m n ∧ x ≠ e)
+    (hI : ∀ n x, x ∈ inL m' n ↔ x ∈ inL m n ∧ x ≠ e)
+    (hOd : ∀ n, (outL m' n).Nodup) (hId : ∀ n, (inL m' n).Nodup) : WF m' := by
+  refine ⟨?_, ?_, ?_, hOd, hId⟩
+  · intro x rx hx
+    rw [hE] at hx
+    by_cases hxe : x = e
+    · simp [hxe] at hx
+    · simp [hxe] at hx
+      obtain ⟨h1, h2, h3, h4, h5⟩ := h.edge_listed x rx hx
+      simp only [hN, hO, hI]
+      exact ⟨h1, h2, ⟨h3, hxe⟩, ⟨h4, hxe⟩, fun hd => ⟨⟨(h5 hd).1, hxe⟩, ⟨(h5 hd).2, hxe⟩⟩⟩
+  · intro n x hx
+    rw [hO] at hx
+    obtain ⟨rx, hrx, ht⟩ := h.out_sound n x hx.1
+    exact ⟨rx, by rw [hE]; simp [hx.2, hrx], ht⟩
+  · intro n x hx
+    rw [hI] at hx
+    obtain ⟨rx, hrx, ht⟩ := h.in_sound n x hx.1
+    exact ⟨rx, by rw [hE]; simp [hx.2, hrx], ht⟩
+
+/-- removing a node that no list entry / edge refers to -/
+theorem wf_remove_isolated_node {m m' : KV} {id : Nat}
+    (h : WF m) (ho : outL m id = []) (hi : inL m id = [])
+    (hE : ∀ x, edgeAt m' x = edgeAt m x)
+    (hN : ∀ n, nodeEx m' n = (nodeEx m n && decide (n ≠ id)))
+    (hO : ∀ n, outL m' n = outL m n)
+    (hI : ∀ n, inL m' n = inL m n) : WF m' := by
+  refine ⟨?_, ?_, ?_, ?_, ?_⟩
+  · intro x rx hx
+    rw [hE] at hx
+    obtain ⟨h1, h2, h3, h4, h5⟩ := h.edge_listed x rx hx
+    have hs : rx.src ≠ id := by intro hh; rw [hh, ho] at h3; cases h3
+    have hd : rx.dst ≠ id := by intro hh; rw [hh, hi] at h4; cases h4
+    simp only [hN, hO, hI]
+    exact ⟨by simp [h1, hs], by simp [h2, hd], h3, h4, h5⟩
+  · intro n x hx
+    rw [hO] at hx
+    obtain ⟨rx, hrx, ht⟩ := h.out_sound n x hx
+    exact ⟨rx, by rw [hE]; exact hrx, ht⟩
+  · intro n x hx
+    rw [hI] at hx
+    obtain ⟨rx, hrx, ht⟩ := h.in_sound n x hx
+    exact ⟨rx, by rw [hE]; exact hrx, ht⟩
+  · intro n; rw [hO]; exact h.out_nodup n
+  · intro n; rw [hI]; exact h.in_nodup n
+
+/-- same shape: node existence and lists unchanged, edge records keep endpoints and direction -/
+theorem wf_same_shape {m m' : KV} (h : WF m)
+    (hE : ∀ x r', edgeAt m' x = some r' →
+      ∃ r, edgeAt m x = some r ∧ r'.src = r.src ∧ r'.dst = r.dst ∧ r'.directed = r.directed)
+    (hE2 : ∀ x r, edgeAt m x = some r →
+      ∃ r', edgeAt m' x = some r' ∧ r'.src = r.src ∧ r'.dst = r.dst ∧ r'.directed = r.directed)
+    (hN : ∀ n, nodeEx m n = true → nodeEx m' n = true)
+    (hO : ∀ n, outL m' n = outL m n)
+    (hI : ∀ n, inL m' n = inL m n) : WF m' := by
+  refine ⟨?_, ?_, ?_, ?_, ?_⟩
+  · intro x r' hx
+    obtain ⟨r, hr, e1, e2, e3⟩ := hE x r' hx
+    obtain ⟨h1, h2, h3, h4, h5⟩ := h.edge_listed x r hr
+    simp only [hO, hI, e1, e2, e3]
+    exact ⟨hN _ h1, hN _ h2, h3, h4, h5⟩
+  · intro n x hx
+    rw [hO] at hx
+    obtain ⟨r, hr, ht⟩ := h.out_sound n x hx
+    obtain ⟨r', hr', e1, e2, e3⟩ := hE2 x r hr
+    exact ⟨r', hr', by rw [e1, e2, e3]; exact ht⟩
+  · intro n x hx
+    rw [hI] at hx
+    obtain ⟨r, hr, ht⟩ := h.in_sound n x hx
+    obtain ⟨r', hr', e1, e2, e3⟩ := hE2 x r hr
+    exact ⟨r', hr', by rw [e1, e2, e3]; exact ht⟩
+  · intro n; rw [hO]; exact h.out_nodup n
+  · intro n; rw [hI]; exact h.in_nodup n
+
+/-- a node that does not exist has empty lists in a well-formed store -/
+theorem WF.lists_of_missing_node {m : KV} (h : WF m) {n : Nat} (hn : nodeEx m n = false) :
+    outL m n = [] ∧ inL m n = [] := by
+  constructor
+  · cases ho : outL m n with
+    | nil => rfl
+    | cons x xs =>
+      obtain ⟨r, hr, ht⟩ := h.out_sound n x (by rw [ho]; simp)
+      obtain ⟨h1, h2, _⟩ := h.edge_listed x r hr
+      rcases ht with rfl | ⟨_, rfl⟩
+      · rw [hn] at h1; cases h1
+      · rw [hn] at h2; cases h2
+  · cases hi : inL m n with
+    | nil => rfl
+    | cons x xs =>
+      obtain ⟨r, hr, ht⟩ := h.in_sound n x (by rw [hi]; simp)
+      obtain ⟨h1, h2, _⟩ := h.edge_listed x r hr
+      rcases ht with rfl | ⟨_, rfl⟩
+      · rw [hn] at h2; cases h2
+      · rw [hn] at h1; cases h1
+
+/-! ### views of an updated store -/
+
+def ins (l : List Nat) (e : Nat) : List Nat := if e ∈ l then l else l ++ [e]
+
+theorem mem_ins {l : List Nat} {e x : Nat} : x ∈ ins l e ↔ x ∈ l ∨ x = e := by
+  unfold ins; split
+  · constructor
+    · exact Or.inl
+    · rintro (h | rfl) <;> assumption
+  · simp
+
+theorem nodup_ins {l : List Nat} {e : Nat} (h : l.Nodup) : (ins l e).Nodup := by
+  unfold ins; split
+  · exact h
+  · rename_i hne
+    rw [List.nodup_append]
+    refine ⟨h, by simp, ?_⟩
+    intro a ha b hb
+    simp at hb; subst hb
+    intro hab; subst hab; exact hne ha
+
+@[simp] theorem outL_upd (m : KV) (k : Key) (v : Option Val) (n : Nat) :
+    outL (upd m k v) n = if Key.out n = k then listOf v else outL m n := by
+  unfold outL upd; split <;> rfl
+@[simp] theorem inL_upd (m : KV) (k : Key) (v : Option Val) (n : Nat) :
+    inL (upd m k v) n = if Key.inn n = k then listOf v else inL m n := by
+  unfold inL upd; split <;> rfl
+@[simp] theorem edgeAt_upd (m : KV) (k : Key) (v : Option Val) (e : Nat) :
+    edgeAt (upd m k v) e = if Key.edge e = k then edgeOf v else edgeAt m e := by
+  unfold edgeAt upd; split <;> rfl
+@[simp] theorem nodeEx_upd (m : KV) (k : Key) (v : Option Val) (n : Nat) :
+    nodeEx (upd m k v) n = if Key.node n = k then v.isSome else nodeEx m n := by
+  unfold nodeEx upd; split <;> rfl
+
+/-- `remove_edge_from_list` as a store transformer -/
+def rmKV (m : KV) (k : Key) (e : Nat) : KV :=
+  match m k with
+  | none => m
+  | some val => upd m k (some (.list ((listOfVal val).filter (fun x => x != e))))
+
+theorem run1_addTo (k : Key) (e : Nat) (c : Prog) (s : St) :
+    run1 (addTo k e c) s = run1 c { s with kv := upd s.kv k (some (.list (ins (listOf (s.kv k)) e))) } := rfl
+
+theorem run1_rmFrom (k : Key) (e : Nat) (c : Prog) (s : St) :
+    run1 (rmFrom k e c) s = run1 c { s with kv := rmKV s.kv k e } := by
+  unfold rmFrom rmKV
+  rw [run1]
+  cases h : s.kv k with
+  | none => simp
+  | some val => simp [run1]
+
+theorem outL_rmKV (m : KV) (k : Key) (e n : Nat) :
+    outL (rmKV m k e) n = if Key.out n = k then (outL m n).filter (fun x => x != e) else outL m n := by
+  unfold rmKV
+  cases h : m k with
+  | none =>
+    simp only
+    split
+    · rename_i hk; subst hk; simp [outL, h, listOf]
+    · rfl
+  | some val =>
+    simp only [outL_upd]
+    split
+    · rename_i hk; subst hk; simp [outL, h, listOf, listOfVal]
+    · rfl
+
+theorem inL_rmKV (m : KV) (k : Key) (e n : Nat) :
+    inL (rmKV m k e) n = if Key.inn n = k then (inL m n).filter (fun x => x != e) else inL m n := by
+  unfold rmKV
+  cases h : m k with
+  | none =>
+    simp only
+    split
+    · rename_i hk; subst hk; simp [inL, h, listOf]
+    · rfl
+  | some val =>
+    simp only [inL_upd]
+    split
+    · rename_i hk; subst hk; simp [inL, h, listOf, listOfVal]
+    · rfl
+
+theorem edgeAt_rmKV_out (m : KV) (n e x : Nat) : edgeAt (rmKV m (.out n) e) x = edgeAt m x := by
+  unfold rmKV; split <;> simp
+theorem edgeAt_rmKV_inn (m : KV) (n e x : Nat) : edgeAt (rmKV m (.inn n) e) x = edgeAt m x := by
+  unfold rmKV; split <;> simp
+theorem nodeEx_rmKV_out (m : KV) (n e x : Nat) : nodeEx (rmKV m (.out n) e) x = nodeEx m x := by
+  unfold rmKV; split <;> simp
+theorem nodeEx_rmKV_inn (m : KV) (n e x : Nat) : nodeEx (rmKV m (.inn n) e) x = nodeEx m x := by
+  unfold rmKV; split <;> simp
+
+
+/-! ### the sequential invariant and its preservation, operation by operation -/
+
+structure Inv (s : St) : Prop where
+  wf : WF s.kv
+  freshN : ∀ n, s.nn < n → nodeEx s.kv n = false
+  freshE : ∀ e, s.ne < e → edgeAt s.kv e = none
+  keys : ∀ n, nodeEx s.kv n = true → (s.kv (.out n)).isSome = true ∧ (s.kv (.inn n)).isSome = true
+
+theorem inv_empty : Inv St.empty := by
+  refine ⟨⟨?_, ?_, ?_, ?_, ?_⟩, ?_, ?_, ?_⟩ <;> intros <;> simp_all [St.empty, edgeAt, edgeOf, outL, inL, listOf, nodeEx]
+
+theorem inv_createNode (s : St) (l v : Nat) (h : Inv s) : Inv (apply s (.createNode l v)).2 := by
+  have hn := h.freshN (s.nn + 1) (by omega)
+  obtain ⟨ho, hi⟩ := h.wf.lists_of_missing_node hn
+  simp only [apply, Op.prog, createNodeProg, createNodeFrom, run1]
+  refine ⟨?_, ?_, ?_, ?_⟩
+  · apply wf_same_shape h.wf
+    · intro x r' hx; simp at hx; exact ⟨r', hx, rfl, rfl, rfl⟩
+    · intro x r hx; exact ⟨r, by simp [hx], rfl, rfl, rfl⟩
+    · intro n hn'; simp; exact Or.inr hn'
+    · intro n; simp; intro hh; subst hh; simp [listOf, listOfVal, ho]
+    · intro n; simp; intro hh; subst hh; simp [listOf, listOfVal, hi]
+  · intro n hlt; simp at hlt ⊢
+    have : n ≠ s.nn + 1 := by omega
+    simp [this]; exact h.freshN n (by omega)
+  · intro e hlt; simp at hlt ⊢; exact h.freshE e hlt
+  · intro n hn'; simp at hn'
+    by_cases hx : n = s.nn + 1
+    · subst hx; simp [upd]
+    · simp [hx] at hn'; have := h.keys n hn'; simp [upd, hx, this]
+
+
+@[simp] theorem listOf_some_list (l : List Nat) : listOf (some (Val.list l)) = l := rfl
+@[simp] theorem edgeOf_some_edge (r : EdgeRec) : edgeOf (some (Val.edge r)) = some r := rfl
+@[simp] theorem edgeOf_none : edgeOf none = none := rfl
+@[simp] theorem listOf_none : listOf none = [] := rfl
+
+theorem run1_addTo_out (n e : Nat) (c : Prog) (s : St) :
+    run1 (addTo (.out n) e c) s = run1 c { s with kv := upd s.kv (.out n) (some (.list (ins (outL s.kv n) e))) } := rfl
+theorem run1_addTo_inn (n e : Nat) (c : Prog) (s : St) :
+    run1 (addTo (.inn n) e c) s = run1 c { s with kv := upd s.kv (.inn n) (some (.list (ins (inL s.kv n) e))) } := rfl
+
+theorem ins_ins (l : List Nat) (e : Nat) : ins (ins l e) e = ins l e := by
+  have : e ∈ ins l e := mem_ins.mpr (Or.inr rfl)
+  rw [ins.eq_1 (ins l e)]
+  simp [this]
+
+theorem createEdgeFrom_spec (s : St) (eid a b : Nat) (d : Bool) (ty v : Nat) :
+    (run1 (createEdgeFrom eid a b d ty v) s).2.nn = s.nn ∧
+    (run1 (createEdgeFrom eid a b d ty v) s).2.ne = s.ne ∧
+    (∀ x, edgeAt (run1 (createEdgeFrom eid a b d ty v) s).2.kv x =
+        if x = eid then some ⟨a, b, d, ty, v⟩ else edgeAt s.kv x) ∧
+    (∀ n, nodeEx (run1 (createEdgeFrom eid a b d ty v) s).2.kv n = nodeEx s.kv n) ∧
+    (∀ n, outL (run1 (createEdgeFrom eid a b d ty v) s).2.kv n =
+        if n = a ∨ (d = false ∧ n = b) then ins (outL s.kv n) eid else outL s.kv n) ∧
+    (∀ n, inL (run1 (createEdgeFrom eid a b d ty v) s).2.kv n =
+        if n = b ∨ (d = false ∧ n = a) then ins (inL s.kv n) eid else inL s.kv n) ∧
+    (∀ k, (s.kv k).isSome = true → ((run1 (createEdgeFrom eid a b d ty v) s).2.kv k).isSome = true) := by
+  cases d with
+  | true =>
+    simp only [createEdgeFrom, run1, run1_addTo_out, run1_addTo_inn, if_true]
+    refine ⟨trivial, trivial, ?_, ?_, ?_, ?_, ?_⟩
+    · intro x; simp [eq_comm]
+    · intro n; simp
+    · intro n; simp; grind
+    · intro n; simp; grind
+    · intro k hk; simp only [upd]; repeat' split
+      all_goals first | rfl | exact hk
+  | false =>
+    simp only [createEdgeFrom, Bool.false_eq_true, ↓reduceIte, run1, run1_addTo_out, run1_addTo_inn]
+    refine ⟨trivial, trivial, ?_, ?_, ?_, ?_, ?_⟩
+    · intro x; simp [eq_comm]
+    · intro n; simp
+    · intro n; simp; grind [ins_ins]
+    · intro n; simp; grind [ins_ins]
+    · intro k hk; simp only [upd]; repeat' split
+      all_goals first | rfl | exact hk
+
+theorem wf_createEdgeFrom (s : St) (eid a b : Nat) (d : Bool) (ty v : Nat)
+    (h : WF s.kv) (hf : edgeAt s.kv eid = none) (ha : nodeEx s.kv a = true) (hb : nodeEx s.kv b = true) :
+    WF (run1 (createEdgeFrom eid a b d ty v) s).2.kv := by
+  obtain ⟨_, _, hE, hN, hO, hI, _⟩ := createEdgeFrom_spec s eid a b d ty v
+  apply wf_add_edge (eid := eid) (a := a) (b := b) (d := d) (ty := ty) (v := v) h hf ha hb hE hN
+  · intro n x; rw [hO]; split
+    · rw [mem_ins]; grind
+    · grind
+  · intro n x; rw [hI]; split
+    · rw [mem_ins]; grind
+    · grind
+  · intro n; rw [hO]; split
+    · exact nodup_ins (h.out_nodup _)
+    · exact h.out_nodup _
+  · intro n; rw [hI]; split
+    · exact nodup_ins (h.in_nodup _)
+    · exact h.in_nodup _
+
+theorem inv_createEdge (s : St) (a b : Nat) (d : Bool) (ty v : Nat) (h : Inv s) :
+    Inv (apply s (.createEdge a b d ty v)).2 := by
+  simp only [apply, Op.prog, createEdgeProg, run1]
+  by_cases ha : (s.kv (.node a)).isSome = true
+  · by_cases hb : (s.kv (.node b)).isSome = true
+    · simp only [ha, hb, Bool.not_true, Bool.false_eq_true, ↓reduceIte, run1]
+      have hf := h.freshE (s.ne + 1) (by omega)
+      obtain ⟨e1, e2, hE, hN, hO, hI, hK⟩ := createEdgeFrom_spec { s with ne := s.ne + 1 } (s.ne + 1) a b d ty v
+      refine ⟨wf_createEdgeFrom _ _ a b d ty v h.wf hf ha hb, ?_, ?_, ?_⟩
+      · intro n hn; rw [hN]; rw [e1] at hn; exact h.freshN n hn
+      · intro e he; rw [hE]; rw [e2] at he; simp at he
+        have : e ≠ s.ne + 1 := by omega
+        simp [this]; exact h.freshE e (by omega)
+      · intro n hn; rw [hN] at hn; exact ⟨hK _ (h.keys n hn).1, hK _ (h.keys n hn).2⟩
+    · simp only [ha, hb, Bool.not_true, Bool.not_false, Bool.false_eq_true, ↓reduceIte, run1]; exact h
+  · simp only [ha, Bool.not_false, ↓reduceIte, run1]; exact h
+
+
+def rmv (l : List Nat) (e : Nat) : List Nat := l.filter (fun x => x != e)
+theorem mem_rmv {l : List Nat} {e x : Nat} : x ∈ rmv l e ↔ x ∈ l ∧ x ≠ e := by simp [rmv]
+theorem rmv_rmv (l : List Nat) (e : Nat) : rmv (rmv l e) e = rmv l e := by simp [rmv, List.filter_filter]
+theorem nodup_rmv {l : List Nat} {e : Nat} (h : l.Nodup) : (rmv l e).Nodup := List.Nodup.sublist List.filter_sublist h
+
+theorem outL_rmKV' (m : KV) (k : Key) (e n : Nat) :
+    outL (rmKV m k e) n = if Key.out n = k then rmv (outL m n) e else outL m n := outL_rmKV m k e n
+theorem inL_rmKV' (m : KV) (k : Key) (e n : Nat) :
+    inL (rmKV m k e) n = if Key.inn n = k then rmv (inL m n) e else inL m n := inL_rmKV m k e n
+
+theorem isSome_rmKV (m : KV) (k : Key) (e : Nat) (k' : Key) : (rmKV m k e k').isSome = (m k').isSome := by
+  unfold rmKV
+  cases h : m k with
+  | none => rfl
+  | some val => simp only [upd]; split
+                · rename_i hk; subst hk; simp [h]
+                · rfl
+
+theorem deleteEdgeBody_spec (s : St) (e : Nat) (r : EdgeRec) :
+    (run1 (deleteEdgeBody e r) s).2.nn = s.nn ∧
+    (run1 (deleteEdgeBody e r) s).2.ne = s.ne ∧
+    (∀ x, edgeAt (run1 (deleteEdgeBody e r) s).2.kv x = if x = e then none else edgeAt s.kv x) ∧
+    (∀ n, nodeEx (run1 (deleteEdgeBody e r) s).2.kv n = nodeEx s.kv n) ∧
+    (∀ n, outL (run1 (deleteEdgeBody e r) s).2.kv n =
+        if n = r.src ∨ (r.directed = false ∧ n = r.dst) then rmv (outL s.kv n) e else outL s.kv n) ∧
+    (∀ n, inL (run1 (deleteEdgeBody e r) s).2.kv n =
+        if n = r.dst ∨ (r.directed = false ∧ n = r.src) then rmv (inL s.kv n) e else inL s.kv n) ∧
+    (∀ n, ((run1 (deleteEdgeBody e r) s).2.kv (.out n)).isSome = (s.kv (.out n)).isSome ∧
+          ((run1 (deleteEdgeBody e r) s).2.kv (.inn n)).isSome = (s.kv (.inn n)).isSome) := by
+  cases hd : r.directed with
+  | true =>
+    simp only [deleteEdgeBody, hd, run1, run1_rmFrom, if_true]
+    refine ⟨trivial, trivial, ?_, ?_, ?_, ?_, ?_⟩
+    · intro x; simp [edgeAt_rmKV_out, edgeAt_rmKV_inn, eq_comm]
+    · intro n; simp [nodeEx_rmKV_out, nodeEx_rmKV_inn]
+    · intro n; simp [outL_rmKV']
+    · intro n; simp [inL_rmKV']
+    · intro n; simp [upd, isSome_rmKV]
+  | false =>
+    simp only [deleteEdgeBody, hd, Bool.false_eq_true, ↓reduceIte, run1, run1_rmFrom]
+    refine ⟨trivial, trivial, ?_, ?_, ?_, ?_, ?_⟩
+    · intro x; simp [edgeAt_rmKV_out, edgeAt_rmKV_inn, eq_comm]
+    · intro n; simp [nodeEx_rmKV_out, nodeEx_rmKV_inn]
+    · intro n; simp [outL_rmKV']; grind [rmv_rmv]
+    · intro n; simp [inL_rmKV']; grind [rmv_rmv]
+    · intro n; simp [upd, isSome_rmKV]
+
+theorem wf_deleteEdgeBody (s : St) (e : Nat) (r : EdgeRec) (h : WF s.kv) (hr : edgeAt s.kv e = some r) :
+    WF (run1 (deleteEdgeBody e r) s).2.kv := by
+  obtain ⟨_, _, hE, hN, hO, hI, _⟩ := deleteEdgeBody_spec s e r
+  apply wf_remove_edge (e := e) h hE hN
+  · intro n x; rw [hO]; split
+    · exact mem_rmv
+    · rename_i hc
+      constructor
+      · intro hx; refine ⟨hx, ?_⟩
+        rintro rfl
+        obtain ⟨r', hr', ht⟩ := h.out_sound n x hx
+        rw [hr] at hr'; cases hr'; grind
+      · exact fun hx => hx.1
+  · intro n x; rw [hI]; split
+    · exact mem_rmv
+    · rename_i hc
+      constructor
+      · intro hx; refine ⟨hx, ?_⟩
+        rintro rfl
+        obtain ⟨r', hr', ht⟩ := h.in_sound n x hx
+        rw [hr] at hr'; cases hr'; grind
+      · exact fun hx => hx.1
+  · intro n; rw [hO]; split
+    · exact nodup_rmv (h.out_nodup _)
+    · exact h.out_nodup _
+  · intro n; rw [hI]; split
+    · exact nodup_rmv (h.in_nodup _)
+    · exact h.in_nodup _
+
+theorem inv_deleteEdge (s : St) (e : Nat) (h : Inv s) : Inv (apply s (.deleteEdge e)).2 := by
+  simp only [apply, Op.prog, deleteEdgeProg, run1]
+  cases hr : edgeOf (s.kv (.edge e)) with
+  | none => simp only [run1]; exact h
+  | some r =>
+    simp only
+    obtain ⟨e1, e2, hE, hN, hO, hI, hK⟩ := deleteEdgeBody_spec s e r
+    refine ⟨wf_deleteEdgeBody s e r h.wf hr, ?_, ?_, ?_⟩
+    · intro n hn; rw [hN]; rw [e1] at hn; exact h.freshN n hn
+    · intro x hx; rw [hE]; rw [e2] at hx; split
+      · rfl
+      · exact h.freshE x hx
+    · intro n hn; rw [hN] at hn; rw [(hK n).1, (hK n).2]; exact h.keys n hn
+
+
+theorem inv_updateNode (s : St) (n : Nat) (lab : Option Nat) (v : Nat) (h : Inv s) :
+    Inv (apply s (.updateNode n lab v)).2 := by
+  simp only [apply, Op.prog, updateNodeProg, run1]
+  cases hv : s.kv (.node n) with
+  | none => simp only [run1]; exact h
+  | some val =>
+    have hex : nodeEx s.kv n = true := by simp [nodeEx, hv]
+    have key : ∀ val', Inv { s with kv := upd s.kv (.node n) (some val') } := by
+      intro val'
+      refine ⟨?_, ?_, ?_, ?_⟩
+      · apply wf_same_shape h.wf
+        · intro x r' hx; simp at hx; exact ⟨r', hx, rfl, rfl, rfl⟩
+        · intro x r hx; exact ⟨r, by simp [hx], rfl, rfl, rfl⟩
+        · intro m hm; simp; exact Or.inr hm
+        · intro m; simp
+        · intro m; simp
+      · intro m hm; simp
+        refine ⟨?_, h.freshN m hm⟩
+        rintro rfl; have := h.freshN m hm; simp_all
+      · intro e he; simp; exact h.freshE e he
+      · intro m hm; simp at hm
+        have : nodeEx s.kv m = true := by rcases hm with rfl | hm; exact hex; exact hm
+        simpa [upd] using h.keys m this
+    cases val with
+    | node l v0 => simp only [hv, run1]; exact key _
+    | edge r => simp only [hv, run1]; exact key _
+    | list l => simp only [hv, run1]; exact key _
+
+theorem inv_updateEdge (s : St) (e v : Nat) (h : Inv s) : Inv (apply s (.updateEdge e v)).2 := by
+  simp only [apply, Op.prog, updateEdgeProg, run1]
+  cases hv : s.kv (.edge e) with
+  | none => simp only [edgeOf, run1]; exact h
+  | some val =>
+    cases val with
+    | node l v0 => simp only [edgeOf, run1]; exact h
+    | list l => simp only [edgeOf, run1]; exact h
+    | edge r =>
+      simp only [edgeOf, hv, run1]
+      have hr : edgeAt s.kv e = some r := by simp [edgeAt, hv]
+      refine ⟨?_, ?_, ?_, ?_⟩
+      · apply wf_same_shape h.wf
+        · intro x r' hx; simp at hx; split at hx
+          · rename_i hh; cases hh; cases hx; exact ⟨r, hr, rfl, rfl, rfl⟩
+          · exact ⟨r', hx, rfl, rfl, rfl⟩
+        · intro x rx hx; simp; split
+          · rename_i hh; cases hh; rw [hr] at hx; cases hx; exact ⟨_, rfl, rfl, rfl, rfl⟩
+          · exact ⟨rx, hx, rfl, rfl, rfl⟩
+        · intro m hm; simp; exact hm
+        · intro m; simp
+        · intro m; simp
+      · intro m hm; simp; exact h.freshN m hm
+      · intro x hx; simp; split
+        · rename_i hh; have := h.freshE x hx; rw [hh, hr] at this; cases this
+        · exact h.freshE x hx
+      · intro m hm; simp at hm; simpa [upd] using h.keys m hm
+
+
+/-! ### delete_node -/
+
+def delNodeEdgeKV (id e : Nat) (r : EdgeRec) (m : KV) : KV :=
+  let other := if r.src = id then r.dst else r.src
+  let m1 := if r.src = id then rmKV m (.inn other) e else m
+  let m2 := if r.dst = id then rmKV m1 (.out other) e else m1
+  if (!r.directed && other != id) then rmKV (rmKV m2 (.out other) e) (.inn other) e else m2
+
+theorem run1_delNodeEdge (id e : Nat) (r : EdgeRec) (c : Prog) (s : St) :
+    run1 (delNodeEdge id e r c) s = run1 c { s with kv := delNodeEdgeKV id e r s.kv } := by
+  unfold delNodeEdge delNodeEdgeKV
+  by_cases h1 : r.src = id <;> by_cases h2 : r.dst = id <;>
+    by_cases h3 : (!r.directed && (if r.src = id then r.dst else r.src) != id) = true <;>
+    simp only [h1, h2, h3, ↓reduceIte, run1_rmFrom] <;> simp_all <;> simp only [run1_rmFrom]
+
+def otherOf (id : Nat) (r : EdgeRec) : Nat := if r.src = id then r.dst else r.src
+
+theorem delNodeEdgeKV_views (id e : Nat) (r : EdgeRec) (m : KV) :
+    (∀ x, edgeAt (delNodeEdgeKV id e r m) x = edgeAt m x) ∧
+    (∀ n, nodeEx (delNodeEdgeKV id e r m) n = nodeEx m n) ∧
+    (∀ n, outL (delNodeEdgeKV id e r m) n =
+      if n = otherOf id r ∧ (r.dst = id ∨ (r.directed = false ∧ otherOf id r ≠ id)) then rmv (outL m n) e else outL m n) ∧
+    (∀ n, inL (delNodeEdgeKV id e r m) n =
+      if n = otherOf id r ∧ (r.src = id ∨ (r.directed = false ∧ otherOf id r ≠ id)) then rmv (inL m n) e else inL m n) ∧
+    (∀ k, (delNodeEdgeKV id e r m k).isSome = (m k).isSome) := by
+  unfold delNodeEdgeKV otherOf
+  by_cases h1 : r.src = id <;> by_cases h2 : r.dst = id <;> cases h3 : r.directed <;>
+    by_cases h4 : (if r.src = id then r.dst else r.src) = id <;>
+    simp [h1, h2, h3, h4, edgeAt_rmKV_out, edgeAt_rmKV_inn, nodeEx_rmKV_out, nodeEx_rmKV_inn, outL_rmKV', inL_rmKV', isSome_rmKV] <;>
+    grind [rmv_rmv]
 
 end Neumann.Graph
